@@ -294,6 +294,41 @@ func allocBounds(ms *ssa.MakeSlice, sz ssa.Value, fn *ssa.Function) (lower, uppe
 			}
 		}
 	}
+	// clamp helper: a module function of the size every return of which is a constant or the
+	// parameter itself behind an upper-bound test — min(n, CONST) spelled as a function
+	if cl, ok := core.(*ssa.Call); ok {
+		if g := moduleHelperWithBody(&cl.Call); g != nil && g.Signature.Results().Len() == 1 {
+			clamp, argIdx, n := true, -1, 0
+			for _, ret := range successReturns(g) {
+				n++
+				rv := stripNoSubst(retVal(ret, 0))
+				if _, isK := constInt(rv); isK {
+					continue
+				}
+				prm, isP := rv.(*ssa.Parameter)
+				if !isP {
+					clamp = false
+					break
+				}
+				if r := RangeAt(ret.Block(), isVal(prm)); !r.HasHi() {
+					clamp = false
+					break
+				}
+				for i, q := range g.Params {
+					if q == prm {
+						if argIdx >= 0 && argIdx != i {
+							clamp = false
+						}
+						argIdx = i
+					}
+				}
+			}
+			if clamp && n > 0 && argIdx >= 0 && argIdx < len(cl.Call.Args) {
+				lo, _, h := allocBounds(ms, cl.Call.Args[argIdx], fn)
+				return lo, true, g.Name() + "(n) clamps to a constant; n: " + h
+			}
+		}
+	}
 	// unsigned narrow types are bounded by their width
 	if w, signed, ok := typeWidth(core.Type()); ok && !signed && w <= 16 {
 		return true, true, fmt.Sprintf("uint%d", w)
